@@ -351,6 +351,18 @@ Example C07_store_saved_reopen_example :
   snd r = true /\ predecessors (o_graph (a_s (fst r))) 0%N = [2%N].
 Proof. exact autosave_saved_reopen_example. Qed.
 
+(* ... and whole histories: with fuel above the size of a finite universe closed under
+   [content] that contains every node the operations mention, no step of any history
+   (without PForeign, whose guard may refuse) runs out of fuel. *)
+Theorem C07_store_history_terminates :
+  forall content isman U,
+    (forall u, In u U -> forall c, In c (content u) -> In c U) ->
+    forall fuel ops,
+      (1 + pot content U [] < fuel)%nat -> Forall (op_in U) ops ->
+      snd (orun true true true content isman fuel empty_store ops) = true.
+Proof. exact store_history_terminates. Qed.
+Print Assumptions C07_store_history_terminates.
+
 (* Scope: [ops] are operations that COMPLETE.  An operation aborted by the environment
    half-way is not covered, and the statement is false there: a Delete whose unlink fails
    after Untag / graph.Remove / saveIndex (EPERM, open handle on NTFS) leaves the blob stored
@@ -481,6 +493,26 @@ Theorem C07_concurrent_quiescent_reopen :
       forall n, Permutation (predecessors (o_graph s'') n) (predecessors (o_graph (c_s st')) n).
 Proof. exact concurrent_quiescent_reopen. Qed.
 Print Assumptions C07_concurrent_quiescent_reopen.
+
+(* At EVERY reachable state of every interleaving (operations still in flight): no extra and
+   no duplicate answer; a stored node referencing n can be missing only while its own Push is
+   between storage.Push and graph.Index ("does not necessarily correspond to any consistent
+   snapshot" in the doc comment is exactly this window and nothing more). *)
+Theorem C07_concurrent_anytime :
+  forall (content : node -> list node) (isman : node -> bool) (rank : node -> nat),
+    (forall p, content p <> [] -> isman p = true) ->
+    (forall p c, In c (content p) -> (rank c < rank p)%nat) ->
+    forall fuel ops0 cops trace st' n,
+      let s0 := fst (orun true true true content isman fuel empty_store ops0) in
+      crun content isman fuel (cinit s0 cops) trace = Some st' ->
+      NoDup (predecessors (o_graph (c_s st')) n) /\
+      (forall p, In p (predecessors (o_graph (c_s st')) n) ->
+                 In p (o_blobs (c_s st')) /\ In n (content p)) /\
+      (forall p, In p (o_blobs (c_s st')) -> In n (content p) ->
+                 In p (predecessors (o_graph (c_s st')) n) \/
+                 existsb (p_push1 p) (c_threads st') = true).
+Proof. exact concurrent_anytime. Qed.
+Print Assumptions C07_concurrent_anytime.
 
 (* the step order of Model/StoreLTS.v is the call order of Store.Push / tag / Tag / Untag in
    content/oci/oci.go as re-read on this run *)
